@@ -107,7 +107,7 @@ CHECKS = {
         design_ref="DESIGN.md section 4, C01",
         technique="schedule exploration: randomised + small-scope exhaustive enumeration of writer/reader interleavings at load/store granularity, history-prefix oracle",
         level_text="writer and reader scripts run under a cooperative scheduler that owns every interleaving point (each compiler-instrumented access to the shared header/data and each "
-                   "semaphore op): seeded random schedules over generated scripts, plus every schedule with at most 2 preemptions for 8 fixed 2+2-op scripts in both notification modes; "
+                   "semaphore op): seeded random schedules over generated scripts, plus every schedule with at most 2 preemptions for 9 fixed 2+2-op scripts (one of them started in a nearly full, wrapped ring) in both notification modes; "
                    "oracle: reader's chunks are always a byte-identical prefix of the successful writes, refused writes have no effect, drain returns exactly the rest",
         level_note="trusted: the history oracle and the schedule engine; sequentially-consistent interleavings only; memcpy of payload inside libqb is one step (word-wise tearing is covered by "
                    "the alloc + fill + commit and peek + compare + reclaim ops whose copies yield per word)",
@@ -196,7 +196,7 @@ CHECKS = {
                    "callback (exactly once, never after a successful delete, job order per priority, readiness) and at quiescence (everything registered and due was dispatched)",
         level_note="trusted: the registration model; clock_gettime/epoll_wait/random are interposed (virtual time, unique check words: the 2^-31 handle collision is out of scope)",
         stages=[rnd("program", "c08", 100000, 3000000, essential=["delete_of_queued_item", "stale_handle_after_slot_reuse", "callback_deletes_itself", "fd_number_reused", "signal_delivered",
-                                                                    "signal_deleted_while_queued", "fd_self_remove_by_return", "job_deleted_while_waiting", "timer_deleted_pending", "stop_from_callback", "poll_mod", "double_add_refused"])],
+                                                                    "signal_deleted_while_queued", "fd_self_remove_by_return", "job_deleted_while_waiting", "timer_deleted_pending", "stop_from_callback", "poll_mod", "double_add_refused", "signal_mod", "signal_mod_priority_while_queued", "signal_mod_number", "signal_moved_while_queued_then_deleted"])],
         assumptions=["handles passed to delete calls are values the API issued earlier (live, fired, deleted, slot reused); signal handles (raw pointers) are deleted at most once",
                      "a descriptor is closed only after qb_loop_poll_del succeeded for it; signals are raised from the loop thread and only while a handler for them is registered",
                      "signal handlers are only added while no delivery of that signal is under way"],
